@@ -24,9 +24,9 @@ From Coq Require Import ZArith QArith Qpower Qabs Qfield Lia Lra List Morphisms.
 Import ListNotations.
 Local Open Scope Q_scope.
 
-Arguments Z.pow : simpl never.
-Arguments Z.quot : simpl never.
-Arguments Z.rem : simpl never.
+Local Arguments Z.pow : simpl never.
+Local Arguments Z.quot : simpl never.
+Local Arguments Z.rem : simpl never.
 
 (* ------------------------------------------------------------------------- *)
 (** * 0. Denotation                                                           *)
@@ -560,7 +560,7 @@ Proof.
   remember (Z.abs bb) as n eqn:Hn.
   assert (Hnpos : (0 < n)%Z) by lia. clear Hz Hn Hx Hnz.
   apply Qle_shift_div_r.
-  - rewrite <- (Zlt_Qlt 0 n). exact Hnpos.
+  - change (inject_Z 0 < inject_Z n). rewrite <- Zlt_Qlt. exact Hnpos.
   - unfold Qle, Qmult, inject_Z, Qnum, Qden. lia.
 Qed.
 
@@ -611,9 +611,16 @@ Proof.
     { rewrite <- !pow10Q_plus.
       replace (dexp a + - e + prec)%Z with (dexp b) by lia. reflexivity. }
     split.
-    + unfold dval. rewrite inject_Z_mult, <- HE, HB, pow10Q_opp.
-      field. repeat split; try apply pow10Q_nz; exact Hcb.
-    + rewrite <- HE, HB. ring.
+    + unfold dval. rewrite inject_Z_mult, <- HE, HB, (pow10Q_opp prec).
+      pose proof (pow10Q_nz (dexp a)) as HnA. pose proof (pow10Q_nz (- e)) as HnE.
+      pose proof (pow10Q_nz prec) as HnR.
+      generalize dependent (pow10Q (dexp a)). intros A _ HnA.
+      generalize dependent (pow10Q (- e)). intros E _ HnE.
+      generalize dependent (pow10Q prec). intros R HnR.
+      generalize dependent (inject_Z (coef b)). intros cb Hcb.
+      generalize (inject_Z (coef a)). intro ca.
+      field. repeat split; assumption.
+    + rewrite <- HE, HB, pow10Q_plus. ring.
   - apply Z.ltb_ge in Hlt.
     exists (coef a * pow10 e)%Z, (coef b), (pow10 e), 1%Z, (- prec + dexp b)%Z.
     assert (Hpp : (0 < pow10 e)%Z) by (apply pow10_pos; lia).
@@ -626,7 +633,13 @@ Proof.
       replace (dexp b + e + - prec)%Z with (dexp a) by lia. reflexivity. }
     split.
     + unfold dval. rewrite inject_Z_mult, <- HE, HA.
-      field. repeat split; try apply pow10Q_nz; exact Hcb.
+      pose proof (pow10Q_nz (dexp b)) as HnB.
+      generalize dependent (pow10Q (dexp b)). intros B _ HnB.
+      generalize (pow10Q e). intro E.
+      generalize (pow10Q (- prec)). intro R.
+      generalize dependent (inject_Z (coef b)). intros cb Hcb.
+      generalize (inject_Z (coef a)). intro ca.
+      field. split; assumption.
     + replace (- prec + dexp b + prec)%Z with (dexp b) by lia.
       change (inject_Z 1) with 1. ring.
 Qed.
@@ -658,7 +671,7 @@ Proof.
   remember (Z.abs bb) as n eqn:Hn.
   assert (Hnpos : (0 < n)%Z) by lia. clear Hz Hn Hf Hnz.
   apply Qlt_shift_div_r.
-  - rewrite <- (Zlt_Qlt 0 n). exact Hnpos.
+  - change (inject_Z 0 < inject_Z n). rewrite <- Zlt_Qlt. exact Hnpos.
   - rewrite Qmult_1_l. rewrite <- Zlt_Qlt. exact Hlt.
 Qed.
 
@@ -693,11 +706,11 @@ Proof.
   pose proof (pow10Q_pos (- prec)) as Hp.
   assert (Hone : dval (mkDec 1 (- prec)) == pow10Q (- prec)).
   { rewrite dval_mk. change (inject_Z 1) with 1. ring. }
-  assert (Hup : Z.abs bb <= Z.abs (Z.rem aa bb) * 2 ->
+  assert (Hup : (Z.abs bb <= Z.abs (Z.rem aa bb) * 2)%Z ->
     Qabs (dval (if (Z.sgn aa * Z.sgn bb <? 0)%Z
                 then dsub (mkDec (Z.quot aa bb) (- prec)) (mkDec 1 (- prec))
                 else dadd (mkDec (Z.quot aa bb) (- prec)) (mkDec 1 (- prec)))
-          - dval a / dval b) <= (1 # 2) * pow10Q (- prec))%Z.
+          - dval a / dval b) <= (1 # 2) * pow10Q (- prec)).
   { intro Hge.
     destruct (Z.sgn aa * Z.sgn bb <? 0)%Z eqn:Hsg.
     - apply Z.ltb_lt in Hsg.
@@ -805,7 +818,8 @@ Proof.
     assert (Hpp : (0 < pow10 (- dexp d))%Z) by (apply pow10_pos; lia).
     assert (Hv : dval d == coef d # Z.to_pos (pow10 (- dexp d))).
     { unfold dval. rewrite Qmake_Qdiv, Z2Pos.id by exact Hpp.
-      rewrite <- (pow10Q_nonneg (- dexp d)) by lia. rewrite pow10Q_opp.
+      rewrite <- (pow10Q_nonneg (- dexp d)) by lia.
+      rewrite (pow10Q_opp (dexp d)). unfold Qdiv. rewrite Qinv_involutive.
       reflexivity. }
     rewrite Hv. unfold Qtrunc. cbn [Qnum Qden]. rewrite Z2Pos.id by exact Hpp.
     reflexivity.
